@@ -80,6 +80,12 @@ var quaiSigRewrites = []quaiRewrite{
 	{"v=2", func(q *types.QuaiTx) { q.V = big.NewInt(2) }},
 	{"v-flip", func(q *types.QuaiTx) { q.V = new(big.Int).Xor(q.V, big.NewInt(1)) }},
 	{"r+1", func(q *types.QuaiTx) { q.R = new(big.Int).Add(q.R, big.NewInt(1)) }},
+	// recovery ids outside {0,1} that equal the genuine one modulo a byte, a word, 2^64
+	{"v+256", func(q *types.QuaiTx) { q.V = new(big.Int).Add(q.V, big.NewInt(256)) }},
+	{"v+512", func(q *types.QuaiTx) { q.V = new(big.Int).Add(q.V, big.NewInt(512)) }},
+	{"v+2^32", func(q *types.QuaiTx) { q.V = new(big.Int).Add(q.V, new(big.Int).Lsh(big.NewInt(1), 32)) }},
+	{"v+2^64", func(q *types.QuaiTx) { q.V = new(big.Int).Add(q.V, new(big.Int).Lsh(big.NewInt(1), 64)) }},
+	{"v+27", func(q *types.QuaiTx) { q.V = new(big.Int).Add(q.V, big.NewInt(27)) }},
 }
 
 func copyQuai(tx *types.Transaction) *types.QuaiTx {
@@ -137,6 +143,42 @@ func checkQuaiAuthorisation(r *Runner, tx *types.Transaction, fail func(class, w
 				}
 			}
 			_ = qb
+		}
+	}
+	// the same content signed by the same key for other networks (0 = "unspecified", small ids, the neighbour id): a node of
+	// this chain must not attribute any of them to the key holder
+	if in, ok := tx.Inner().(*types.QuaiTx); ok {
+		var key *ecdsaKey
+		for _, a := range quaiAccounts {
+			if a.Addr.Equal(orig) {
+				key = a.Key
+			}
+		}
+		for _, id := range []int64{0, 1, 9, 1337, params.Blake3PowLocalChainConfig.ChainID.Int64() + 1} {
+			if key == nil || big.NewInt(id).Cmp(params.Blake3PowLocalChainConfig.ChainID) == 0 {
+				continue
+			}
+			q := copyQuai(tx)
+			q.ChainID = big.NewInt(id)
+			q.V, q.R, q.S = new(big.Int), new(big.Int), new(big.Int)
+			_ = in
+			foreign, err := types.SignNewTx(key, types.NewSigner(big.NewInt(id), LocZone), q)
+			if err != nil {
+				continue
+			}
+			simkit.Global.Inc("fault.foreign-chain-signature")
+			if got, err := types.Sender(signer, foreign); err == nil && got.Equal(orig) {
+				fail("cross-chain-replay", fmt.Sprintf("signed-for-chain-id=%d", id), fmt.Sprintf("a transaction the key holder signed for chain id %d is attributed to %x by a signer of chain id %v", id, orig.Bytes(), params.Blake3PowLocalChainConfig.ChainID))
+				return
+			}
+			_ = pool.AddRemote(foreign)
+			pend, queued := pool.ContentFrom(quaiInternal(orig))
+			for _, t2 := range append(pend, queued...) {
+				if t2.Hash() == foreign.Hash() {
+					fail("cross-chain-replay", fmt.Sprintf("pool signed-for-chain-id=%d", id), fmt.Sprintf("the pool of chain %v booked a transaction signed for chain id %d to %x", params.Blake3PowLocalChainConfig.ChainID, id, orig.Bytes()))
+					return
+				}
+			}
 		}
 	}
 	// sender cache across chain ids and locations
